@@ -174,7 +174,11 @@ TokenV(v, kind) == IF kind # "canon" /\ AltToken(v, kind) # <<>> THEN AltToken(v
 Styles == [kf : {"dot", "nest", "half"}, pfx : BOOLEAN, opf : {"nest", "suffix"}]
 Rot(sts, k) == [i \in 1..Len(sts) |-> sts[((i + k - 1) % Len(sts)) + 1]]
 
-KeyComps(a, st) == IF Head(a.path) = "sp" /\ ~st.pfx THEN Tail(a.path) ELSE a.path          \* R2
+\* R2: the "sp." prefix may be dropped from a state point key - the DEFAULT namespace - whatever the key's name is
+\* (names that merely begin with the letters of a namespace, "speed", "spx", "docking", "doc_x", "species.name", are
+\* ordinary keys), except when the first component after the prefix IS one of the words "sp" / "doc": a state point
+\* key literally named "sp" or "doc" can only be written with the explicit prefix (CS2, calibrated).
+KeyComps(a, st) == IF Head(a.path) = "sp" /\ ~st.pfx /\ a.path[2] \notin {"sp", "doc"} THEN Tail(a.path) ELSE a.path
 \* entry key components and value node of an atom (R3)
 AtomKey(a, st) == IF a.op # "eq" /\ st.opf = "suffix" THEN KeyComps(a, st) \o <<a.op>> ELSE KeyComps(a, st)
 AtomVal(a, st) == IF a.op = "eq" \/ st.opf = "suffix" THEN CLit(a.arg) ELSE CMap(<<CEnt(<<a.op>>, CLit(a.arg))>>)
@@ -326,8 +330,20 @@ SameFilter(f, g) == NF(f) = NF(g)
 NumberAtoms == {At(PA, "eq", I(10)), At(PA, "eq", I(1000)), At(PA, "eq", I(7)), At(PA, "eq", F(5, 1)), At(PA, "eq", F(1, 2)),
                 At(PA, "eq", F(0 - 1, 2)), At(PA, "$ne", F(1, 4)), At(PDX, "$gte", F(25, 2)), At(PNX, "$lt", I(10)),
                 And(<<At(PA, "$gt", F(1, 2)), At(PDX, "eq", I(10))>>), At(PA, "eq", I(0 - 2))}
+\* keys whose NAME begins with "sp" / "doc" (R2 must treat them like any other key), a key named exactly like a
+\* namespace (CS2), in both namespaces, nested, below logical operators, and with null / missing-key semantics
+PrefixLikeFilters ==
+  LET ks == {<<"sp", "speed">>, <<"sp", "spx">>, <<"sp", "docking">>, <<"sp", "doc_x">>, <<"sp", "species", "name">>,
+             <<"sp", "sp">>, <<"doc", "spin">>, <<"doc", "docs">>, <<"doc", "doc">>}
+      at == {At(k, "eq", I(1)) : k \in ks} \cup {At(k, "$exists", B(TRUE)) : k \in ks} \cup {At(k, "eq", Null) : k \in ks}
+            \cup {At(k, "$gt", I(0)) : k \in ks}
+  IN at \cup {Not(At(<<"sp", "speed">>, "eq", I(1))), Not(At(<<"sp", "docking">>, "$exists", B(TRUE))),
+              And(<<At(<<"sp", "speed">>, "eq", I(1)), At(<<"sp", "docking">>, "$exists", B(TRUE))>>),
+              Or(<<At(<<"sp", "spx">>, "eq", I(1)), At(<<"sp", "species", "name">>, "eq", I(1))>>),
+              And(<<Not(At(<<"sp", "doc_x">>, "eq", Null)), At(<<"doc", "docs">>, "eq", I(1))>>),
+              And(<<At(<<"sp", "a">>, "eq", Null), At(<<"sp", "speed">>, "$exists", B(FALSE))>>)}
 SFilters == IF MODE = "file" THEN Filters ELSE IF MODE # "spell" THEN <<>>
-            ELSE SetToSeq(FiltersD1 \cup NumberAtoms \cup RandomSubset(NSPELL, FiltersD2 \cup FiltersD3))
+            ELSE SetToSeq(FiltersD1 \cup NumberAtoms \cup PrefixLikeFilters \cup RandomSubset(NSPELL, FiltersD2 \cup FiltersD3))
 SpellInit == \E fi \in 1..Len(SFilters) : corpus = <<>> /\ stack = <<SFilters[fi]>>
 SpellNext == UNCHANGED vars
 
